@@ -100,6 +100,16 @@ theorem normalized_iff_valid_fixed_point (n : Str) (hn : ∀ cp ∈ n, cp < 0x11
   rw [accepts_eq_runK normalized_classes_verified (fun cp h => kindCS_ge cp h) normalized_sim n hn]
   exact runN_eq_normalized n
 
+/-- the generated `_normalized_regex` and the spec regex "runs of `[a-z0-9]` separated by single dashes"
+accept the same strings -/
+theorem normalized_language (s : Str) (hs : ∀ cp ∈ s, cp < 0x110000) :
+    accepts Gen.NormalizedRx.ranges Gen.NormalizedRx.rx s =
+    accepts Gen.NormalizedRx.ranges (NameSpec.normalizedRx Gen.NormalizedRx.kinds) s := by
+  have ht : tiles Gen.NormalizedRx.nClasses 0 Gen.NormalizedRx.ranges = true := by
+    have := normalized_classes_verified
+    simp only [Kinds.consistent, Bool.and_eq_true] at this; exact this.1.2
+  exact accepts_congr1 ht normalized_cert s hs
+
 /-- the same against the spec's own wording -/
 theorem normalized_iff_spec (n : Str) (hn : ∀ cp ∈ n, cp < 0x110000) :
     isNormalized n = NameSpec.normalized lowerCp n := by
